@@ -98,6 +98,7 @@ TIERS = {'quick': ['num5', 'wide3', 'kw2', 'sexa5', 'sexat', 'date10', 'ts', 'tz
          'smoke': ['kw2', 'lf', 'exp']}
 
 TAGP = 'tag:yaml.org,2002:'
+PROCS = int(os.environ.get('C08_PROCS', '16'))
 # pairs of texts for the position / context streams (spec/MC_Contexts.tla): one typed text with another
 CTX_PAIRS = [('1', 'yes'), ('null', '1.5'), ('2001-01-01', 'x'), ('1:30', '0x10'), ('~', 'no'), ('.inf', '-0'),
              ('1_0', '0o7'), ('2001-01-01 00:00:00', '=')]
@@ -675,6 +676,212 @@ def mk_dump(ev, ot, ov, rb=False):
     return {'kind': 'dump', 'text': chars(ev.value), 'plain': bool(ev.implicit[0]), 'tag': tag, 'ot': ot, 'ov': ov, 'rb': rb}
 
 
+# --------------------------------------------------------------- dump clause in every situation (spec/MC_DumpSpace.tla)
+# scalar nodes of the pool of MC_DumpSpace: spellings of every type (as the representer writes them and as a document may
+# spell them) and strs that look like each type
+DUMP_REPS = [('null', 'null'), ('null', '~'), ('null', ''), ('bool', 'true'), ('bool', 'No'), ('int', '12'), ('int', '-3'),
+             ('int', '0x1F'), ('int', '1:30'), ('float', '1.5'), ('float', '1.0e+16'), ('float', '.inf'), ('float', '-.inf'),
+             ('float', '.nan'), ('float', '1:30.5'), ('timestamp', '2001-12-14'), ('timestamp', '2001-12-14 21:59:43'),
+             ('timestamp', '2001-12-14 21:59:43.250000+05:30'), ('timestamp', '2001-12-14T21:59:43Z'),
+             ('str', 'abc'), ('str', 'a b'), ('str', 'a: b'), ('str', 'a:b'), ('str', 'a,b'), ('str', '12'), ('str', 'true'),
+             ('str', 'null'), ('str', '~'), ('str', ''), ('str', '1.5'), ('str', '.inf'), ('str', '2001-12-14'),
+             ('str', '2001-12-14 21:59:43'), ('str', '1:30'), ('str', '<<'), ('str', '='), ('str', '- a'), ('str', '#a'),
+             ('str', 'a #b'), ('str', '1e3')]
+STYLE_CHAR = {'none': None, 'single': "'", 'double': '"', 'literal': '|', 'folded': '>'}
+FLOW_OPT = {'block': False, 'flow': True, 'auto': None}
+
+
+def boundary_values():
+    """typed values at the boundaries of every field of every type + strs that look like each type (no random choice:
+    the same in every worker process)"""
+    D, DT, TD, TZ = datetime.date, datetime.datetime, datetime.timedelta, datetime.timezone
+    vals = [None, True, False]
+    vals += [0, 1, -1, 9, -9, 10, -10, 12, 59, 60, 61, 3599, 3600, 255, 1000, 10 ** 6, 2 ** 31 - 1, -2 ** 31, 2 ** 63, -2 ** 63 - 1,
+             2 ** 64, 10 ** 20, -10 ** 25 + 7]
+    vals += [0.0, -0.0, math.inf, -math.inf, math.nan, 1.0, -1.0, 0.1, 1.5, -1.5, 1e15, 1e16, 1e17, -1e17, 1e22, 1e23, 1e-4, 1e-5,
+             1e-7, 5e-324, sys.float_info.max, -sys.float_info.max, 1e300, 1e-300, 123.456, 60.0, 3600.5, 1 / 3, 6.02e23]
+    years, small = [1, 9, 10, 99, 100, 999, 1000, 2001, 9999], [1, 9, 10]
+    vals += [D(y, 12, 14) for y in years] + [D(2001, m, 14) for m in small + [12]] + [D(2001, 1, d) for d in small + [28, 30, 31]]
+    vals += [D(2000, 2, 29), D(1900, 2, 28), D(1, 1, 1), D(9999, 12, 31)]
+    base = dict(year=2001, month=12, day=14, hour=21, minute=59, second=43, microsecond=0)
+    field_values = {'year': years, 'month': small + [12], 'day': small + [28, 31], 'hour': [0] + small + [23],
+                    'minute': [0] + small + [59], 'second': [0] + small + [59],
+                    'microsecond': [1, 9, 10, 99, 100, 999, 1000, 9999, 10000, 99999, 100000, 250000, 500000, 999999]}
+    dts = [DT(**base)]
+    for f, fv in field_values.items():
+        dts += [DT(**dict(base, **{f: x})) for x in fv if x != base[f]]
+    dts += [DT(1, 1, 1, 0, 0, 0), DT(9999, 12, 31, 23, 59, 59, 999999), DT(2001, 1, 1)]
+    zones = [TZ.utc, TZ(TD(0)), TZ(TD(hours=1)), TZ(-TD(hours=5)), TZ(TD(hours=5, minutes=30)), TZ(-TD(hours=9, minutes=30)),
+             TZ(TD(hours=10)), TZ(TD(hours=23, minutes=59)), TZ(-TD(hours=23, minutes=59)), TZ(TD(minutes=1)), TZ(-TD(minutes=1))]
+    for z in zones:
+        dts += [DT(**base, tzinfo=z), DT(**dict(base, microsecond=250000), tzinfo=z)]
+    dts += [DT(1, 1, 2, 0, 0, 0, 1, tzinfo=TZ(TD(hours=5, minutes=30))), DT(999, 1, 1, 0, 0, tzinfo=TZ.utc),
+            DT(9999, 12, 30, 23, 59, 59, 999999, tzinfo=TZ(-TD(hours=5)))]
+    vals += dts
+    vals += [t for _, t in DUMP_REPS]
+    vals += ['True', 'NO', 'off', 'Null', '0b1', '0o7', '017', '1_000', '+1', '-.5', '1e+3', '.NaN', '2001-12-14T21:59:43.25+05:30',
+             '2001-1-1', '1 2', 'x']
+    seen, out = set(), []
+    for x in vals:                                  # 1 / 1.0 / True and '1' stay distinct
+        k = (type(x).__name__, repr(x))
+        if k not in seen:
+            seen.add(k)
+            out.append(x)
+    return out
+
+
+def _in_position(pos, x, other):
+    return x if pos == 'root' else [x] if pos == 'item' else {x: other} if pos == 'key' else {other: x}
+
+
+def _scalar_at(pos, evs):
+    """the scalar event of the occurrence among the scalar events of one document"""
+    want = 1 if pos in ('root', 'item') else 2
+    if len(evs) != want:
+        return None
+    return evs[1] if pos == 'value' else evs[0]
+
+
+def _out_of_position(pos, doc, ok):
+    """-> (loaded, value) of the occurrence in a loaded document"""
+    try:
+        if pos == 'root':
+            return True, doc
+        if pos == 'item':
+            assert type(doc) is list and len(doc) == 1
+            return True, doc[0]
+        assert type(doc) is dict and len(doc) == 1
+        (k, w), = doc.items()
+        return True, k if pos == 'key' else w
+    except Exception:
+        return False, None
+
+
+def _doc_events(yaml, text):
+    docs, cur = [], None
+    for e in yaml.parse(text):
+        if isinstance(e, yaml.DocumentStartEvent):
+            cur = []
+        elif isinstance(e, yaml.DocumentEndEvent):
+            docs.append(cur)
+        elif isinstance(e, yaml.ScalarEvent):
+            cur.append(e)
+    return docs
+
+
+def dump_values_in(yaml, Dn, vals, style, flow, pos):
+    """every value dumped as one document in the situation -> list of (event | None, loaded, back, error)"""
+    D = getattr(yaml, Dn)
+    Ld = yaml.CSafeLoader if Dn.startswith('C') else yaml.SafeLoader
+    opts = {'default_style': STYLE_CHAR[style], 'default_flow_style': FLOW_OPT[flow]}
+    try:
+        out = yaml.dump_all([_in_position(pos, x, 'k') for x in vals], Dumper=D, **opts)
+        evs = [_scalar_at(pos, d) for d in _doc_events(yaml, out)]
+        back = list(yaml.load_all(out, Loader=Ld))
+        if len(evs) == len(vals) and len(back) == len(vals) and None not in evs:
+            return [(e,) + _out_of_position(pos, b, True) + (None,) for e, b in zip(evs, back)]
+    except Exception:
+        pass
+    res = []
+    for x in vals:                                  # one by one: a failing value must not hide the others
+        try:
+            out = yaml.dump(_in_position(pos, x, 'k'), Dumper=D, **opts)
+            docs = _doc_events(yaml, out)
+            e = _scalar_at(pos, docs[0]) if len(docs) == 1 else None
+        except yaml.YAMLError as ex:
+            res.append((None, False, None, 'yaml:' + str(ex)[:80]))
+            continue
+        except Exception as ex:
+            res.append((None, False, None, 'exception:%s: %s' % (type(ex).__name__, str(ex)[:80])))
+            continue
+        try:
+            ok, b = _out_of_position(pos, yaml.load(out, Loader=Ld), True)
+        except Exception:
+            ok, b = False, None
+        res.append((e, ok, b, None if e is not None else 'shape:' + out[:60]))
+    return res
+
+
+def emit_node_in(yaml, Dn, tag, text, style, flow, pos):
+    """serialize the scalar node (tag, text) in the situation -> emitted scalar event (or None)"""
+    D = getattr(yaml, Dn)
+    node = yaml.ScalarNode(TAGP + tag, text, style=STYLE_CHAR[style])
+    other = yaml.ScalarNode(TAGP + 'str', 'k')
+    fs = FLOW_OPT[flow]
+    if fs is None:
+        fs = style == 'none'                        # representer.py: a collection of style-less scalars is a flow one
+    if pos == 'item':
+        node = yaml.SequenceNode(TAGP + 'seq', [node], flow_style=fs)
+    elif pos == 'key':
+        node = yaml.MappingNode(TAGP + 'map', [(node, other)], flow_style=fs)
+    elif pos == 'value':
+        node = yaml.MappingNode(TAGP + 'map', [(other, node)], flow_style=fs)
+    docs = _doc_events(yaml, yaml.serialize(node, Dumper=D))
+    return _scalar_at(pos, docs[0]) if len(docs) == 1 else None
+
+
+def dump_work(states, extra):
+    """replay of the states of MC_DumpSpace: the node of the state through both serializers / emitters (kind "emit"), and
+    - once per situation - every boundary value of every type through dump() (kinds "dump" and "load")"""
+    yaml = use_repo()
+    reps, dumpers = extra['reps'], extra['dumpers']
+    vals = boundary_values()
+    res = {'n': 0, 'situations': 0, 'obs': [], 'drift': {}, 'values': len(vals)}
+    for st in states:
+        res['n'] += 1
+        if st['pos'] == '-':
+            continue
+        style, flow, pos = st['style'], st['flow'], st['pos']
+        ctx = {'style': style, 'flow': flow, 'pos': pos}
+        tag, text = reps[st['rep'] - 1]
+        for Dn in dumpers:
+            info = {'dumper': Dn, 'node': [tag, text], 'ctx': ctx}
+            try:
+                ev = emit_node_in(yaml, Dn, tag, text, style, flow, pos)
+            except Exception as ex:
+                ev = None
+                info['error'] = '%s: %s' % (type(ex).__name__, str(ex)[:80])
+            if ev is None or ev.value != text:
+                # the text itself was not written back: nothing the type clause can be asked about (C07 / C12 territory)
+                k = 'emit %s: node not written as one scalar with its text' % Dn
+                res['drift'][k] = res['drift'].get(k, 0) + 1
+                continue
+            rec = mk_dump(ev, 'node', {})
+            rec.update(kind='emit', ntag=tag)
+            res['obs'].append((rec, info))
+            if Dn == 'SafeDumper' and (rec['plain'], rec['tag']) != (st['em']['plain'], st['em']['tag']):
+                k = 'emit model: L writes plain=%s tag=%r, SafeDumper plain=%s tag=%r (style %s)' % (
+                    st['em']['plain'], st['em']['tag'], rec['plain'], rec['tag'], style)
+                res['drift'][k] = res['drift'].get(k, 0) + 1
+        if st['rep'] != 1:
+            continue
+        res['situations'] += 1
+        for Dn in dumpers:
+            for x, (ev, loaded, b, err) in zip(vals, dump_values_in(yaml, Dn, vals, style, flow, pos)):
+                ot, ov = digest(x)
+                info = {'dumper': Dn, 'value': repr(x), 'feature': value_feature(x), 'ctx': ctx, 'opts': ctx}
+                if ev is None:
+                    if err and err.startswith('exception:'):
+                        rec = {'kind': 'dump', 'text': [], 'plain': False, 'tag': '', 'ot': 'exception', 'ov': {}, 'rb': False}
+                    else:
+                        rec = {'kind': 'dump', 'text': [], 'plain': False, 'tag': 'none', 'ot': ot, 'ov': ov, 'rb': False}
+                    info['error'] = err
+                    res['obs'].append((rec, info))
+                    continue
+                if ot == 'str' and ev.value != x:
+                    continue                        # folded / wrapped text: the characters are C07's subject
+                res['obs'].append((mk_dump(ev, ot, ov, bool(loaded and same_value(b, x))), info))
+                if loaded and (ev.implicit[0] or ev.implicit[1]):
+                    bt, bv = digest(b, ev.value.count(':') + 1)
+                    if bt == 'str' and b != ev.value:
+                        bt = 'other:str-changed'
+                    res['obs'].append(({'kind': 'load', 'text': chars(ev.value), 'plain': bool(ev.implicit[0]), 'tag': '', 'ot': bt,
+                                        'ov': bv, 'rb': True},
+                                       {'loader': ('CSafeLoader' if Dn.startswith('C') else 'SafeLoader') + '/dumped', 'text': ev.value,
+                                        'plain': bool(ev.implicit[0]), 'got': repr(b)[:80], 'dumped': repr(x), 'dumper': Dn, 'ctx': ctx}))
+    return res
+
+
 def regex_members(yaml, rnd, count):
     """random members (and near-members: one edit) of every implicit resolver regexp of the real Resolver class"""
     try:
@@ -1020,7 +1227,7 @@ def main(tier, replay=None):
 
     # ---- (b) spec -> code
     extra = {'loaders': loaders, 'dumpers': dumpers, 'seed': SEED, 'sample': 40 if quick else 120, 'literal': not quick}
-    out = mbt.pmap(work, r.dump, extra, chunks=128 if quick else 512)
+    out = mbt.pmap(work, r.dump, extra, procs=PROCS, chunks=128 if quick else 512)
     n = sum(o['n'] for o in out)
     if n != r.distinct:
         raise SystemExit('machinery failure: replayed %d texts, TLC found %d states' % (n, r.distinct))
@@ -1067,7 +1274,7 @@ def main(tier, replay=None):
         raise SystemExit('machinery failure: MC_Contexts violates %s' % rc.violated)
     tlc.require_ok(rc, 'MC_Contexts/' + tier)
     cout = mbt.pmap(ctx_work, rc.dump, {'loaders': loaders, 'pool': [list(p) for p in pairs], 'seed': SEED, 'sample': 20},
-                    chunks=128 if quick else 512)
+                    procs=PROCS, chunks=128 if quick else 512)
     if sum(o['n'] for o in cout) != rc.distinct:
         raise SystemExit('machinery failure: replayed %d streams, TLC found %d states' % (sum(o['n'] for o in cout), rc.distinct))
     os.remove(rc.dump)
@@ -1082,6 +1289,30 @@ def main(tier, replay=None):
         for b in o['bad']:
             v.violation(b['key'], b)
     replayed += ctx_occ
+
+    # ---- (b3) the dump clause in every situation: style asked for x block / flow / auto x position x dumper
+    dsp = os.path.join(BUILD, 'traces', 'C08_dumpspace_%s.json' % tier)
+    json.dump({'reps': [{'tag': t, 'text': chars(x)} for t, x in DUMP_REPS]}, open(dsp, 'w'))
+    rd = tlc.run('MC_DumpSpace', dump=True, coverage=False, tag='C08_dumpspace_' + tier, timeout=900, env={'C08_CFG': dsp},
+                 heap='3g', workers=min(4, int(os.environ.get('C08_WORKERS', '16'))))
+    if rd.violated:
+        print(rd.out[-3000:])
+        raise SystemExit('machinery failure: MC_DumpSpace violates %s (the model of serializer / emitter does not refine H)' % rd.violated)
+    tlc.require_ok(rd, 'MC_DumpSpace/' + tier)
+    dout = mbt.pmap(dump_work, rd.dump, {'reps': [list(x) for x in DUMP_REPS], 'dumpers': dumpers}, procs=PROCS, chunks=64)
+    if sum(o['n'] for o in dout) != rd.distinct:
+        raise SystemExit('machinery failure: replayed %d dump situations, TLC found %d states' % (sum(o['n'] for o in dout), rd.distinct))
+    os.remove(rd.dump)
+    nsit = sum(o['situations'] for o in dout)
+    if nsit != 60 or rd.distinct != 61 * len(DUMP_REPS):
+        raise SystemExit('machinery failure: %d dump situations / %d states (5 styles x 3 flow settings x 4 positions expected)' % (nsit, rd.distinct))
+    dobs = [x for o in dout for x in o['obs']]
+    ddrift = {}
+    for o in dout:
+        for k, c in o['drift'].items():
+            ddrift[k] = ddrift.get(k, 0) + c
+    for k, c in sorted(ddrift.items()):
+        v.note('spec-drift C08: %s (%d)' % (k, c))
 
     # ---- (c) code -> spec, judged by TLC
     vals = gen_values(rnd, tier)
@@ -1103,20 +1334,38 @@ def main(tier, replay=None):
     obs += sobs
     nstream = len(sobs)
     obs += sample_records(sampled)
-    verdicts, tstates = trace.judge('Trace_Types', [o[0] for o in obs], 'C08_types_' + tier)
-    rejected = 0
+    obs += dobs
+    # the same record (same text, form, tag, value) is written in many situations: TLC judges each distinct record once
+    uniq, slot = [], {}
+    for rec, _ in obs:
+        k = json.dumps(rec, sort_keys=True)
+        if k not in slot:
+            slot[k] = len(uniq)
+            uniq.append(rec)
+    uverdicts, tstates = trace.judge('Trace_Types', uniq, 'C08_types_' + tier)
+    verdicts = [uverdicts[slot[json.dumps(rec, sort_keys=True)]] for rec, _ in obs]
+    rejected, reported = 0, set()
     for (rec, info), (ok, why, at) in zip(obs, verdicts):
         if ok:
             continue
         rejected += 1
-        if rec['kind'] == 'dump':
+        if rec['kind'] == 'emit':
+            key = dict({'side': 'emit', 'via': info['dumper'], 'node_tag': rec['ntag'], 'why': why,
+                        'written': 'plain' if rec['plain'] else 'not plain', 'tag_written': rec['tag']}, **info['ctx'])
+        elif rec['kind'] == 'dump' and 'ctx' in info:
+            key = dict({'side': 'dump', 'via': info['dumper'], 'expected': rec['ot'], 'feature': info.get('feature', ''), 'why': why,
+                        'microseconds': bool(re.search(r'datetime\((\d+, ){6}\d+', info.get('value', '')))}, **info['ctx'])
+            if json.dumps(key, sort_keys=True) in reported:
+                continue                            # one report per class of value and situation
+            reported.add(json.dumps(key, sort_keys=True))
+        elif rec['kind'] == 'dump':
             key = {'side': 'dump', 'via': info['dumper'], 'expected': rec['ot'], 'feature': info.get('feature', ''), 'why': why,
                    'microseconds': 'microsecond=' in info.get('value', '') or bool(re.search(r'datetime\((\d+, ){6}\d+', info.get('value', '')))}
         else:
             key = {'side': 'load', 'via': info['loader'], 'plain': rec['plain'], 'why': why, 'got': rec['ot']}
         v.violation(key, {'info': info, 'why': why, 'emitted_or_loaded_text': ''.join(rec['text']), 'observed_type': rec['ot']})
 
-    v.cov = {'states': r.distinct + rc.distinct + tstates, 'transitions': r.generated + rc.generated, 'enumerated_texts': r.distinct,
+    v.cov = {'states': r.distinct + rc.distinct + rd.distinct + tstates, 'transitions': r.generated + rc.generated + rd.generated, 'enumerated_texts': r.distinct,
              'traces_validated_against_impl': replayed + len(obs), 'replayed_observations': replayed,
              'tlc_judged_observations': len(obs), 'tlc_judged_dump_observations': ndump - nround,
              'tlc_judged_readbacks_of_dumped_scalars': nround, 'timestamp_spelling_classes': shape_cov,
@@ -1124,6 +1373,9 @@ def main(tier, replay=None):
              'tlc_judged_stream_occurrences': nstream, 'random_streams_not_in_shape': sskipped,
              'context_streams': rc.distinct, 'context_occurrences_judged': ctx_occ,
              'context_stream_loads_not_in_shape': ctx_unprintable,
+             'dump_situations': nsit, 'dump_space_states': rd.distinct, 'dump_space_nodes': len(DUMP_REPS),
+             'dump_space_values_per_situation': dout[0]['values'], 'dump_space_observations': len(dobs),
+             'tlc_judged_distinct_records': len(uniq),
              'exhaustive': True, 'distinct_nontrivial': sum(o['nontrivial'] for o in out),
              'texts_loadable_as_plain_scalar': sum(o['plain'] for o in out),
              'rule': 'one TLC state per text of the plans; non-trivial = the repository gives the text a type other than str; '
@@ -1131,12 +1383,17 @@ def main(tier, replay=None):
                      % (', '.join(loaders), ', '.join(dumpers)),
              'model_relation_counts': devs, 'plans': {nm: [len(s) for s in PLANS[nm]()] for nm in names},
              'generated_values': len(vals), 'samples': samples[:8],
-             'actions': {'Extend': r.generated - len(names), 'AddOccurrence': rc.generated - 2 * len(pairs)}}
+             'actions': {'Extend': r.generated - len(names), 'AddOccurrence': rc.generated - 2 * len(pairs), 'Situate': rd.generated - len(DUMP_REPS)}}
+    v.cov['dump_space_rule'] = ('MC_DumpSpace: one TLC state per scalar node of the pool x style asked for (none \' " | >) x default_flow_style '
+                                '(False True None) x position (root, item, key, value); every state is serialized with %s, and in every '
+                                'situation every boundary value of every type is dumped; each emitted scalar is judged by TLC (Trace_Types)'
+                                % ', '.join(dumpers))
     v.assumptions = ['texts are sequences over the plan alphabets (ASCII); characters outside them are covered only by the corpus scalars',
                      'a text counts as a plain scalar when the loader under test reads "- <text>" as one plain scalar equal to it',
                      'decimal floats must be correctly rounded (exact rational arithmetic); sexagesimal floats within one ulp per term',
                      'datetimes: same instant, same zone awareness, microseconds = the first six fraction digits (truncation, as PyYAML documents); the UTC offset itself is not compared',
                      'texts whose type has no value (0x_, month 13, hour 24, zone +24:00): a YAML error or any value, but no other exception',
+                     'dump situations: scalar nodes of one line of printable ASCII; collections of one scalar (sequence) or one pair (mapping), one nesting level',
                      'TLC coverage statistics are off for MC_Resolver (the regexp ASTs make -coverage run out of memory); '
                      'the single action Extend generates every non-initial state']
     return v.finish()
